@@ -6,7 +6,7 @@ Anchors: `pyyeti/ode/solveunc.py` (`fsolve`, `_solve_freq_rb`, `_solve_freq_unc`
 (`_init_dva`, `_chk_diag_part`, `_make_rb_el`), `pyyeti/ode/_utilities.py` (`_process_incrb`,
 `solvepsd`), `pyyeti/ytools.py` (`isdiag`).
 
-One definition, two instances: the scalar formulas (`frfUnc`, `frfDir`, `frfRb`, `rfFreq`,
+One definition, two instances: the scalar formulas (`frfUnc`, `frfDir`, `frfRb`, `rbDampAcc`, `frfRbD`, `rfFreq`,
 `applyIncrb`, `rowUnc`, `rowDirect`) and the matrix formulas on `Fin n → α` (`dynStiff`,
 `frfCoupled`, `freqDirect`, `frfRec`, `respPsd`, `trapz2`) are polymorphic; the theorems of
 `Props/C02.lean` instantiate them at a field with an element `i` (ℂ), the driver instantiates
@@ -83,6 +83,19 @@ def frfRb (isZero : α → Bool) (i arb w : α) (inc : Incrb) : Dva α :=
    if inc.v && !isZero w then (-i / w) * arb else 0,
    if inc.a then arb else 0⟩
 
+/-- `_solve_freq_rb`, damped rigid-body mode of an *uncoupled* system (`if np.any(b_rb):`):
+`a_rb[:, pvnz] /= 1 - 1j * (b_rb * im)[:, None] / freqw[pvnz]` — the acceleration `arb = f/m` is
+divided by `1 − i (b/m)/Ω` where `Ω ≠ 0` and left as it is at `Ω = 0`; `bim = b * im`, `im = 1/m`
+(`1.0` for `m = None`).  Then `−Ω² d = a` gives `(−Ω² m + iΩ b) d = f`. -/
+def rbDampAcc (isZero : α → Bool) (i arb bim w : α) : α :=
+  if isZero w then arb else arb / (1 - i * bim / w)
+
+/-- one rigid-body equation `m q̈ + b q̇ = f` of an uncoupled system as `_solve_freq_rb` solves it
+(repaired code, findings F51 / F52): the damped acceleration when `b ≠ 0` (for `b = 0` the division
+is by one: `frfRb_damped_reduces`), then `v`, `d` from it as in `frfRb`. -/
+def frfRbD (isZero : α → Bool) (i m b f w : α) (inc : Incrb) : Dva α :=
+  frfRb isZero i (if isZero b then (1 / m) * f else rbDampAcc isZero i ((1 / m) * f) (b * (1 / m)) w) w inc
+
 /-- `_init_dva`, residual-flexibility rows given the static displacement `drf = k⁻¹ f`. -/
 def rfFreq (i drf w : α) (dispOnly : Bool) : Dva α :=
   if dispOnly then ⟨drf, 0, 0⟩ else ⟨drf, drf * (i * w), drf * -(w * w)⟩
@@ -95,7 +108,7 @@ def applyIncrb (inc : Incrb) (x : Dva α) : Dva α :=
 def rowUnc (isZero : α → Bool) (i : α) (c : Cls) (inc : Incrb) (dispOnly : Bool)
     (m b k f w : α) : Dva α :=
   match c with
-  | .rb => frfRb isZero i ((1 / m) * f) w inc
+  | .rb => frfRbD isZero i m b f w inc
   | .el => frfUnc i m b k f w
   | .rf => rfFreq i ((1 / k) * f) w dispOnly
 
